@@ -359,6 +359,13 @@ def setup(e):
     def h_own_store(e2, st, o, name, args, kwargs):
         if name == "values":
             yield st, Opaque("sym_seq")
+        elif name == "__contains__":
+            yield st, z3.Bool(e2.fresh("is_own_certificate"))      # arbitrary: any digest may or may not be an own one
+        elif name in ("__getitem__", "get"):
+            s1, t = _ticket(e2, st, "own_ticket")
+            yield s1, t
+        elif name == "keys":
+            yield st, o
         else:
             raise Unsupported(f"own certificate store .{name}")
     e.opaque_handlers["own_store"] = h_own_store
